@@ -33,9 +33,9 @@ META = {
 TWOPI = 2 * numpy.pi
 
 
-def _mk_signs(rc, d2pi, rbt):
+def _mk_signs(rc, d2pi, rbt, gfile=True):
     def body(env):
-        loc, orig, given, me, (pa, pb) = c14.run_prologue(env, rc, d2pi, rbt, False)
+        loc, orig, given, me, (pa, pb) = c14.run_prologue(env, rc, d2pi, rbt, False, gfile=gfile)
         env.witness("prologue_ran")
         s_psi = (-1.0 if rc else 1.0)
         div = TWOPI if d2pi else 1.0
@@ -45,8 +45,11 @@ def _mk_signs(rc, d2pi, rbt):
             env.claim_eq("psi1D=(+-)input/(2pi)^k", loc["psi1D"][k], s_psi * orig["psi1D"][k] / div)
             env.claim_eq("fpol1D=(+-)input", loc["fpol1D"][k], (-1.0 if rbt else 1.0) * orig["fpol1D"][k])
             env.claim_eq("pressure_untouched", loc["pressure"][k], orig["pressure"][k])
-        env.claim_eq("psi_axis_gfile_scaled", loc["psi_axis_gfile"], pa / div)
-        env.claim_eq("psi_bdry_gfile_scaled", loc["psi_bdry_gfile"], pb / div)
+        if gfile:
+            env.claim_eq("psi_axis_gfile_scaled", loc["psi_axis_gfile"], pa / div)
+            env.claim_eq("psi_bdry_gfile_scaled", loc["psi_bdry_gfile"], pb / div)
+        else:
+            env.claim("no_gfile_values_invented", loc["psi_axis_gfile"] is None and loc["psi_bdry_gfile"] is None)
         inc = loc["psi1D"][-1] > loc["psi1D"][0]
         if env.mode == "sym":
             env.claim("psi_increasing_flag", core.SymBool(core.lift_bool(inc) == z3.BoolVal(bool(me.psi_increasing))) if not isinstance(me.psi_increasing, core.SymBool)
@@ -59,7 +62,13 @@ def _mk_signs(rc, d2pi, rbt):
 def ob_extrapolate(env):
     """extrapolate_profiles: the appended pressure values continue the profile: p0*exp((psi-psi0)*p'/p0)"""
     psi_sol = 50.0
-    loc, orig, given, me, _ = c14.run_prologue(env, False, False, False, True, psi_sol=psi_sol)
+    try:
+        loc, orig, given, me, _ = c14.run_prologue(env, False, False, False, True, psi_sol=psi_sol)
+    except UnboundLocalError as e:
+        if "psiSOL" not in str(e):
+            raise
+        env.tag("no_extension_needed:constructor_stops_with_UnboundLocalError")   # profile already reaches psi_sol (DESIGN 7.5b)
+        return
     env.witness("extrapolation_ran")
     psi1D, pressure, fpol1D = loc["psi1D"], loc["pressure"], loc["fpol1D"]
     n0 = 3
@@ -86,7 +95,14 @@ def _mk_extrapolate_range(decreasing):
     (larger psi if psi increases outwards, smaller if it decreases), so that no grid point falls beyond the extended profile"""
     def body(env):
         a, b = env.real("psi_sol", lo=-90, hi=90), env.real("psi_sol_inner", lo=-90, hi=90)
-        loc, orig, given, me, _ = c14.run_prologue(env, False, False, False, True, psi_sol=a, psi_sol_inner=b, decreasing=decreasing)
+        try:
+            loc, orig, given, me, _ = c14.run_prologue(env, False, False, False, True, psi_sol=a, psi_sol_inner=b, decreasing=decreasing)
+        except UnboundLocalError as e:
+            if "psiSOL" not in str(e):
+                raise
+            # seen while encoding (DESIGN 7.5b): with a pressure profile and no limit beyond the profile the constructor stops with this error
+            env.tag("no_extension_needed:constructor_stops_with_UnboundLocalError")
+            return
         psi1D, pressure, fpol1D = loc["psi1D"], loc["pressure"], loc["fpol1D"]
         edge = orig["psi1D"][-1]
         if len(psi1D) == 3:
@@ -121,12 +137,29 @@ def spline_slice():
     return _S["fn"], _S["info"]
 
 
+class SplineValue:
+    """value of a stub spline: unpacks as (tag, spline, argument); a constant factor applied by the caller is remembered"""
+    def __init__(self, spline, arg, factor=1.0):
+        self.spline, self.arg, self.factor = spline, arg, factor
+
+    def __iter__(self):
+        return iter(("spline_value", self.spline, self.arg))
+
+    def __rmul__(self, k):
+        return SplineValue(self.spline, self.arg, self.factor * k)
+
+    __mul__ = __rmul__
+
+    def __getitem__(self, k):
+        return ("spline_value", self.spline, self.arg)[k]
+
+
 class SplineStub:
     def __init__(self, x, y, ext=None):
         self.x, self.y, self.ext = x, y, ext
 
     def __call__(self, arg):
-        return ("spline_value", self, arg)
+        return SplineValue(self, arg)
 
     def derivative(self):
         return SplineStub(self.x, ("derivative", self.y), self.ext)
@@ -163,8 +196,11 @@ def _mk_splines(increasing):
         tag, spl, arg = me.pressure(q)
         env.claim("pressure_uses_p_spline", spl is me.p_spl)
         env.claim_eq("pressure_evaluated_at_psi*sign", arg, q * sgn)
-        tag, spl, arg = me.fpolprime(q)
+        fp_val = me.fpolprime(q)
+        tag, spl, arg = fp_val
         env.claim("fpolprime_is_derivative_of_f_spline", spl.y[0] == "derivative" and spl.y[1] is me.f_spl.y)
+        env.claim_eq("fpolprime_evaluated_at_psi*sign", arg, q * sgn)
+        env.claim("fpolprime_carries_the_chain_rule_factor", fp_val.factor == sgn)
         # chain rule: fpolprime(psi) is d/dpsi of fpol(psi) = f_spl(psi*sign), i.e. sign * f_spl'(psi*sign).  The spline and its
         # derivative are an uninterpreted function pair (F, F'); the real methods run on a first-order jet in psi.
         from symx.jets import Jet1
@@ -247,6 +283,10 @@ for _rc in (False, True):
             OBLIGATIONS.append(Ob("option_signs_rc%d_2pi%d_rbt%d" % (_rc, _d, _rb), _mk_signs(_rc, _d, _rb), tier="quick", family="constructor options",
                                   encodes=["hypnotoad.cases.tokamak:TokamakEquilibrium.__init__"],
                                   desc="psi arrays = input * (-1)^reverse_current / (2pi)^psi_divide_twopi, fpol * (-1)^reverse_Bt, gfile scalars scaled, psi_increasing flag",
+                                  bounds="arrays 2x2 / length 3, symbolic contents"))
+            OBLIGATIONS.append(Ob("option_signs_rc%d_2pi%d_rbt%d_from_arrays" % (_rc, _d, _rb), _mk_signs(_rc, _d, _rb, gfile=False), tier="quick", family="constructor options",
+                                  encodes=["hypnotoad.cases.tokamak:TokamakEquilibrium.__init__"],
+                                  desc="the same without psi_axis_gfile/psi_bdry_gfile (equilibrium built directly from arrays, not read from a geqdsk file)",
                                   bounds="arrays 2x2 / length 3, symbolic contents"))
 OBLIGATIONS.append(Ob("extrapolated_pressure_continuous", ob_extrapolate, tier="quick", family="extrapolation",
                       encodes=["hypnotoad.cases.tokamak:TokamakEquilibrium.__init__"],
